@@ -224,18 +224,38 @@ def _module_level_fn(a, b=0):
     return 100 * a + b
 
 
-def body_realpickle(E, fresh, nb):
+def body_realpickle(E, fresh, nb, in_main=False):
+    """in_main: the swept function lives in __main__ at sow time (a script / notebook) and is NOT there in the
+    process that grows and reaps: it must have been stored by value"""
+    import sys
+    import types
+
     nb = concretize(nb, 1, 2)
-    with E(pickle="real") as env:
-        ref = combo_runner(_module_level_fn, grid(4), verbosity=0)
-        crop = cp.Crop(fn=_module_level_fn, name="t", parent_dir=env.parent, num_batches=nb)
-        crop.sow_combos(grid(4), verbosity=0)
-        if cbool(fresh):
-            crop = cp.Crop(name="t", parent_dir=env.parent)
-        for i in range(1, nb + 1):
-            cp.grow(i, crop=crop, verbosity=0)       # function loaded from disk
-        out = crop.reap()
-        return out == ref
+    fn = _module_level_fn
+    main = sys.modules["__main__"]
+    in_main = bool(in_main)
+    if in_main:
+        fn = types.FunctionType(_module_level_fn.__code__, {"__builtins__": __builtins__}, "vf_main_fn")
+        fn.__module__ = "__main__"
+        fn.__qualname__ = "vf_main_fn"
+        fn.__defaults__ = _module_level_fn.__defaults__
+        setattr(main, "vf_main_fn", fn)
+    try:
+        with E(pickle="real") as env:
+            ref = combo_runner(fn, grid(4), verbosity=0)
+            crop = cp.Crop(fn=fn, name="t", parent_dir=env.parent, num_batches=nb)
+            crop.sow_combos(grid(4), verbosity=0)
+            if in_main:
+                delattr(main, "vf_main_fn")          # "another process": __main__ has no such function
+            if cbool(fresh) or in_main:
+                crop = cp.Crop(name="t", parent_dir=env.parent)
+            for i in range(1, nb + 1):
+                cp.grow(i, crop=crop, verbosity=0)       # function loaded from disk
+            out = crop.reap()
+            return out == ref
+    finally:
+        if hasattr(main, "vf_main_fn"):
+            delattr(main, "vf_main_fn")
 
 
 BODIES = {}
@@ -292,7 +312,12 @@ CONDS = (
                          + _API)
     + [make_cond(_G, "realpickle", body_realpickle, "fresh:bool nb:int", ["1 <= nb <= 2"], timeout=120,
                  bounds="the real get_picklelib/to_pickle/from_pickle with a module-level function; function loaded "
-                        "from disk by grow and by a fresh Crop")]
+                        "from disk by grow and by a fresh Crop"),
+       make_cond(_G, "realpickle_main", lambda E, dummy, **k: body_realpickle(E, **k), "dummy:int", ["dummy == 0"],
+                 fixed=dict(in_main=True, fresh=True, nb=2), timeout=120,
+                 bounds="as realpickle with a function that lives in __main__ at sow time only (script / notebook): "
+                        "the growing and reaping 'process' has no such attribute in __main__, so the function must "
+                        "have been stored by value")]
 )
 
 ASSUMPTIONS = [
